@@ -249,6 +249,41 @@ def arrpoly_fails(case):
     return None
 
 
+# ---- smooth program at an integer point given in integer types: same derivatives as at the float point ---------------
+def intpoint_case(rng, tier):
+    N = rng.randint(1, 4)
+    return {'op': 'intpoint', 'N': N, 'x': [rng.randint(-3, 3) for _ in range(N)], 'v': [rng.randint(-2, 2) / 2.0 for _ in range(N)],
+            'kind': rng.choice(['list', 'int64', 'int32', 'int16', 'uint8'])}
+
+
+def intpoint_fails(case):
+    N = case['N']
+    xs = [abs(a) for a in case['x']] if case['kind'] == 'uint8' else case['x']
+    v = np.array(case['v'])
+    xi = list(xs) if case['kind'] == 'list' else np.array(xs, dtype=case['kind'])
+    xf = np.array(xs, dtype=float)
+
+    def f(x):
+        return algopy.sum(algopy.sin(x) * x) + algopy.exp(0.5 * x[0])
+    res = {}
+    for tag, x in (('int', xi), ('float', xf)):
+        try:
+            with np.errstate(all='ignore'):
+                res[tag] = (np.asarray(UTPM.extract_jacobian(f(UTPM.init_jacobian(x))), dtype=float),
+                            np.asarray(UTPM.extract_jac_vec(f(UTPM.init_jac_vec(x, v))), dtype=float),
+                            np.asarray(UTPM.extract_hessian(N, f(UTPM.init_hessian(x))), dtype=float),
+                            np.asarray(UTPM.extract_hess_vec(N, f(UTPM.init_hess_vec(x, v))), dtype=float))
+        except Exception as ex:
+            if tag == 'float':
+                return None
+            return 'intpoint-exception: a driver raised %s at the integer point %s given as %s' % (type(ex).__name__, xs, case['kind'])
+    for name, a, b in zip(('jacobian', 'jac_vec', 'hessian', 'hess_vec'), res['int'], res['float']):
+        if a.shape != b.shape or not close(a, b, 1e-12):
+            return 'intpoint-%s: at the integer point %s given as %s the result differs from the one at the same point given as float (max diff %s)' % (
+                name, xs, case['kind'], maxdiff(a, b) if a.shape == b.shape else 'shape')
+    return None
+
+
 # ---- nested seeds (forward over forward): the seed point is a vector of Taylor polynomials x_i + t v_i -------------
 def nested_case(rng, tier):
     N = rng.randint(2, 5)
@@ -329,6 +364,8 @@ def replay_case(ctx, case):
         return interleave_fails(case)
     if case.get('op') == 'nested':
         return nested_fails(case)
+    if case.get('op') == 'intpoint':
+        return intpoint_fails(case)
     if case.get('op') == 'arrpoly':
         return arrpoly_fails(case)
     if case.get('op') == 'poly':
@@ -361,6 +398,13 @@ def run(ctx):
         if len(ctx.samples) < 2 and case['N'] >= 2:
             ctx.samples.append(case)
         f = poly_fails(case)
+        if f:
+            ctx.report(case, 'failure', f)
+    for i in range(40 if ctx.tier == 'quick' else 400):
+        case = intpoint_case(rng, ctx.tier)
+        ctx.evaluations += 1
+        ctx.count('int-point=' + case['kind'])
+        f = intpoint_fails(case)
         if f:
             ctx.report(case, 'failure', f)
     for i in range(40 if ctx.tier == 'quick' else 400):
